@@ -35,7 +35,7 @@ def run(ctx):
     payloads.append({"ltan": ltan, "seed": ctx.seed})
     k = 3 if thorough else 1
     for j in range(4):
-        payloads.append({"nsso": 60 * k, "nlambert": 40 * k, "nbplane": 80 * k, "nbeta": 60 * k, "seed": ctx.seed + 100 + j})
+        payloads.append({"nsso": 60 * k, "nlambert": 160 * k, "nbplane": 80 * k, "nbeta": 60 * k, "seed": ctx.seed + 100 + j})
     for res in ctx.harness_parallel("mission_replay.py", payloads, procs=12, timeout=3000):
         ctx.absorb(res)
     ctx.extra["walker_triples"] = nw
